@@ -170,14 +170,50 @@ def gen_case(rng, abi=False):
         # non-ASCII text in the C source (encoded length != number of characters)
         source += '\n/* %s */\n' % rng.choice(['caf\u00e9', '\u00fcber \u2192 na\u00efve', '\u4e2d\u6587 \U0001f600', '\u00a9 2026'])
     packed = rng.chance(0.1)
-    return dict(cdef='\n'.join(decls), name=modname, source=source, packed=packed)
+    case = dict(cdef='\n'.join(decls), name=modname, source=source, packed=packed)
+    # declarations that reach the FFI object by other ways than its first cdef(): an included
+    # parent FFI, a second cdef() that uses the parent's types, embedding init code
+    r2 = rng.fork('late')
+    if r2.chance(0.35):
+        k = r2.below(1000)
+        case['parent'] = dict(
+            cdef='typedef struct par%d_s { int pa; long pb; } par%d_t; typedef unsigned short par%d_u16; '
+                 'enum par%d_e { PAR%d_A, PAR%d_B = 5 };' % (k, k, k, k, k, k),
+            name=modname.replace('.', '_') + '_base')
+        late = []
+        for i in range(r2.randint(0, 3)):
+            late.append(r2.choice(['par%d_t *use_par%d_%d(par%d_u16, enum par%d_e);' % (k, k, i, k, k),
+                                   'typedef par%d_t *par%d_ptr%d_t;' % (k, k, i),
+                                   'extern par%d_u16 g_par%d_%d;' % (k, k, i),
+                                   'struct late%d_%d { par%d_t inner; par%d_u16 n; };' % (k, i, k, k)]))
+        if late:
+            case['late_cdef'] = '\n'.join(late)
+    elif r2.chance(0.2):
+        case['late_cdef'] = 'int late_fn_%d(int, long);\ntypedef struct late_s%d { char c; } late_t%d;' % (
+            r2.below(100), r2.below(100), r2.below(100))
+    if source is not None and r2.chance(0.15):
+        case['embedding'] = 'from %s import ffi\nprint("init %d")\n' % (modname, r2.below(100))
+    return case
 
 
-def build_ffi(cffi_module, case):
+def build_ffi(cffi_module, case, midway=None):
+    """`midway(ffi)`, if given, is called after the first cdef()/set_source() and before the
+    remaining declarations arrive (include(), second cdef(), embedding_init_code())"""
     ffi = cffi_module.FFI()
     if case.get('packed'):
         ffi.cdef(case['cdef'], packed=True)
     else:
         ffi.cdef(case['cdef'])
     ffi.set_source(case['name'], case['source'])
+    if midway is not None:
+        midway(ffi)
+    if case.get('parent'):
+        par = cffi_module.FFI()
+        par.cdef(case['parent']['cdef'])
+        par.set_source(case['parent']['name'], None if case['source'] is None else '/* base */')
+        ffi.include(par)
+    if case.get('late_cdef'):
+        ffi.cdef(case['late_cdef'])
+    if case.get('embedding'):
+        ffi.embedding_init_code(case['embedding'])
     return ffi
